@@ -94,6 +94,36 @@ theorem long_frame_name_survives (es : List WEcu) (hes : wfEcus es = true) (ts :
     rw [hi.2]
     exact (CanVerif.C05i.long_name_restored "SystemMessageLongSymbol" _ _ long hlong).1
 
+/-- **frames keep identifier and name** through the file and the post-processing when no frame carries a long-name attribute (names of at
+most 32 characters) and none is the pseudo frame of the signals without frame -/
+theorem dbc_file_keeps_frame_names (es : List WEcu) (hes : wfEcus es = true) (ts : List WTable) (hts : wfTables ts = true)
+    (ds : List DefLine) (hds : wfDefs ds = true) (dds : List DefDefLine) (hdds : wfDefaults ds dds = true)
+    (ga : List (Str × Str)) (hga : wfAttrs (expectDefs ds dds) .global .global ga = true)
+    (hea : ∀ e ∈ es, wfAttrs (expectDefs ds dds) .ecu (.ecu e.name) e.attrs = true)
+    (ps : List (WFrame × (Nat × Bool))) (hwf : ∀ p ∈ ps, p.1.wf p.2 = true) (hdist : ps.Pairwise fun p q => p.2 ≠ q.2)
+    (hfa : ∀ p ∈ ps, p.1.wfA (expectDefs ds dds) = true)
+    (hnolong : ∀ p ∈ ps, lookupAttr (attrsOf p.1.attrs) "SystemMessageLongSymbol".toList = none)
+    (hnd : ∀ p ∈ ps, p.1.bo.name ≠ "VECTOR__INDEPENDENT_SIG_MSG".toList) :
+    (postProcess (readFile (writeDbc es ts ds dds ga (ps.map (·.1))))).frames.map (fun f => (f.key, f.name)) =
+      ps.map fun p => (p.2, p.1.bo.name) := by
+  have hfr := (C05o.dbc_file_roundtrip_line_for_line es hes ts hts ds hds dds hdds ga hga hea ps hwf hdist hfa).2.2.2.1
+  have hname : ∀ p ∈ ps, (longName "SystemMessageLongSymbol" (p.1.expectA p.2).name (p.1.expectA p.2).attrs).1 = p.1.bo.name := by
+    intro p hp
+    have := CanVerif.C05i.no_long_name "SystemMessageLongSymbol" p.1.bo.name (attrsOf p.1.attrs) (hnolong p hp)
+    simp only [WFrame.expectA, WFrame.expect]
+    rw [this]
+  rw [post_frame_names _ (by
+    rw [hfr]
+    intro f hf
+    obtain ⟨q, hq, rfl⟩ := List.mem_map.mp hf
+    rw [hname q hq]
+    exact hnd q hq)]
+  rw [hfr, List.map_map]
+  apply List.map_congr_left
+  intro p hp
+  simp only [Function.comp_apply, hname p hp]
+  rfl
+
 /-! ## non-vacuity -/
 
 def exLong : List (WFrame × (Nat × Bool)) :=
